@@ -185,6 +185,15 @@ def run(ctx):
                 ctx.check(ok, "R9.3", b.loc(), f"{key}|insert|{k}", f"{key}: SafeParams entry {k!r} must hold the value decoded for the argument declared as {k!r}", instance=f"{key}: safe_params[{k!r}] = decoded {k}")
                 for abb in auth_calls:
                     ctx.check(not dt.derives_from_call(b, t["args"][2], abb, vt), "R9.3", b.loc(), f"{key}|auth-in-safe-params", f"{key}: the auth token flows into SafeParams", nontrivial=False)
+            if want:
+                # the set is attached to the response *before* the first argument is decoded: a request whose later argument
+                # fails to decode still reports the safe arguments decoded so far
+                inst = [(bb, t) for bb, t in b.calls() if t["call"]["name"] == "insert" and "xtensions" in t["call"]["def"] and any("SafeParams" in tystr(x) for x in t["call"].get("substs") or [])]
+                cfg_h = CFG(b)
+                first_ok = len(inst) == 1 and all(cfg_h.dominates(inst[0][0], xbb) and xbb != inst[0][0] for kind, xbb, t in ex if not kind.startswith("auth"))
+                ctx.check(first_ok, "R9.3", b.loc(), f"{key}|safe-params-installed-first",
+                          f"{key}: SafeParams must be inserted into the response extensions once, before any argument is decoded (found {len(inst)} installation(s); it does not dominate every extraction call): safe arguments decoded before a failing one would otherwise be lost",
+                          instance=f"{key}: response_extensions.insert(SafeParams) dominates all extraction calls")
             ctx.check(got == want, "R9.3", b.loc(), f"{key}|safe-set", f"{key}: SafeParams receives {sorted(got)}; the IR declares safe: {sorted(want)}", instance=f"{key}: safe set {sorted(want)}")
             # no other safe sink in handlers
             for bb, t, f, as_value in sinks_in(b):
